@@ -281,11 +281,15 @@ func (e *Exec) loopInvariant(f *Frame, li *loopInfo, st *State, pc Term, kind st
 }
 
 func (e *Exec) loopInvariantAssume(f *Frame, li *loopInfo, st *State) {
+	reach := li.reach
+	if reach == "" {
+		reach = "true"
+	}
 	if f.ctr == nil {
 		return
 	}
 	for _, gi := range e.allGlobalInvs(e.rootEntry, st) {
-		e.assume(gi.term, "package invariant (loop)")
+		e.assume(Implies(reach, gi.term), "package invariant (loop)")
 	}
 	cls := f.ctr.Invs[li.ordinal]
 	if len(cls) == 0 {
@@ -298,7 +302,7 @@ func (e *Exec) loopInvariantAssume(f *Frame, li *loopInfo, st *State) {
 		if err != nil {
 			panic(fmt.Sprintf("fatal: %s:%d: invariant loop %d: %v", f.ctr.File, cl.Line, li.ordinal, err))
 		}
-		e.assume(t, "loop invariant")
+		e.assume(Implies(reach, t), "loop invariant")
 	}
 }
 
